@@ -49,7 +49,7 @@ macro_rules! place {
                     if j < bs.n && bs.b[j].addr != COPIED {
                         assert!(bs.b[j].addr % bs.b[j].align == 0, "[C12/ref.aligned] no returned reference is misaligned for its type");
                         assert!(bs.b[j].addr % bs.b[j].align == 0, "[C03/borrow.aligned.placed] a borrowed part is aligned for its element type wherever the buffer is placed");
-                        assert!(bs.b[j].addr >= base + k && bs.b[j].addr + bs.b[j].bytes <= base + k + n, "[C03/borrow.inside.placed] a borrowed part covers only bytes of the buffer wherever it is placed");
+                        assert!(bs.b[j].bytes == 0 || (bs.b[j].addr >= base + k && bs.b[j].addr + bs.b[j].bytes <= base + k + n), "[C03/borrow.inside.placed] a borrowed part covers only bytes of the buffer wherever it is placed");
                     }
                 }
                 Err(deser::Error::AlignmentError) => {
